@@ -144,6 +144,19 @@ class World:
             q["epre"] = t[0] != "4.0"
         except Exception:
             pass
+        # the two deviations of _build_eval_tree (owned by C07; selected here for the tree cases only)
+        def tree(text):
+            return pe.build_eval_tree(pe.plain_tokenizer(text)).to_string()
+        q["paren_any"], q["pow_exempt"] = True, True
+        try:
+            q["paren_any"] = tree("6/2(x)") != "((6 / 2) x)"
+        except Exception:
+            pass
+        try:
+            q["pow_exempt"] = tree("a/b**2") != "(a / (b ** 2))" or \
+                pe.build_eval_tree(pe.uncertainty_tokenizer("1.0(1)**2 m")).to_string() != "(((1.0 +/- 0.1) ** 2) m)"
+        except Exception:
+            pass
         try:
             self.M(20, 0.5, "degC") + self.M(10, 0.5, "degC")
             q["blind"] = True
@@ -1237,7 +1250,8 @@ def run(ck):
     # trees
     tree_strings = ["(1.0 +/- 0.1) m", "2 * 4.0+/-0.1 m", "4.0 +/- 0.1 * 2 m", "-(4.0+/-0.1) m", "(-4.0+/-0.1) m", "4.0(1)e3 m",
                     "1.0(1) m + 2.0(2) m", "(1.0+/-0.1)e+05 m / (2.0+/-0.1) s", "3 m +/- 1 m", "2**3.0+/-0.1", "1.0(1)**2",
-                    "(1.0 +/- 0.1", "1.0 +/- ", "+/- 1"]
+                    "(1.0 +/- 0.1", "1.0 +/- ", "+/- 1", "(1.2 +/- 0.4)**2 m", "1.2(4)**2", "2**1.0(1)", "1.0(1)**2**3", "6/2(1.0(1))",
+                    "3 m / 2(1.0 +/- 0.1) s", "1.0(1)^2 * 2"]
     for _ in range(200 if thorough else 60):
         n = rnd_instance(rng)
         tree_strings.append(rng.choice(["", "2 * ", "3 + ", "- "]) + inst_text(n) + rng.choice([" m", " m**2", " * 3 s", " / s + 1 m/s", "**2"]))
@@ -1248,9 +1262,9 @@ def run(ck):
             continue
         try:
             t = w.pe.build_eval_tree(w.pe.uncertainty_tokenizer(s)).to_string()
-            add(f"KTree {coq_toks(plain)} (Some {coq_str(t)})", {"kind": "tree", "string": s}, ("tree", s))
+            add(f"KTree {coq_bool(qk['paren_any'])} {coq_bool(qk['pow_exempt'])} {coq_toks(plain)} (Some {coq_str(t)})", {"kind": "tree", "string": s}, ("tree", s))
         except Exception:
-            add(f"KTree {coq_toks(plain)} None", {"kind": "tree", "string": s}, ("tree", s))
+            add(f"KTree {coq_bool(qk['paren_any'])} {coq_bool(qk['pow_exempt'])} {coq_toks(plain)} None", {"kind": "tree", "string": s}, ("tree", s))
         ck.count("trees")
 
     # ------------------------------------------------------------ conversion: unit pairs
